@@ -1380,6 +1380,122 @@ def script_part(run, r, runner, n):
             run.violation("script:update-reruns-the-step", "staged k 2->4, N 2, 2 stages: after step 2 (stage %d, k %r) `cv bias r update` gives stage %d, k %r and writes %r" % (a["ST"], a["K"], b["ST"], b["K"], b["TI"]), {"kind": "script-update"})
 
 
+def traj_part(run, r, runner, n):
+    """the trajectory columns written by the restraints (write_traj_label / write_traj of harmonic, linear, harmonicWalls,
+    histogramRestraint): x0_<variable> (outputCenters), W_<bias> (outputAccumulatedWork), E_<bias> (outputEnergy) against the
+    internal members after every step (14 digits), and through them against the model (the members are tied elsewhere);
+    plus refHistogramFile (one- and two-column files) and writeHistogram of the histogram restraint."""
+    cases = []
+    for k in range(n):
+        c = gen_case(r, k)
+        if any(t != "S" for t, _ in c["events"]):
+            c["events"] = [e for e in c["events"] if e[0] == "S"]     # the trajectory file is per process: no restarts here
+        c["outc"] = c["kind"] != "walls" and r.random() < 0.8
+        cases.append(c)
+    scn = []
+    for k, c in enumerate(cases):
+        conf = ["config EOF", "colvarsTrajFrequency 1"] + config_text(c)
+        bi = max(j for j, l in enumerate(conf) if l == "}")
+        extra = ["  outputEnergy on"] + (["  outputCenters on"] if c["outc"] else [])
+        conf = conf[:bi] + extra + conf[bi:] + ["EOF"]
+        L = ["echo CASE %d" % k, "natoms %d" % len(c["vars"]), "prefix tj%d" % k, "new"]
+        if c["it0"]:
+            L.append("setstep %d" % c["it0"])
+        L += ["capture"] + conf + ["show atomf 0 cv 0 energy 0 bias 0"]
+        for typ, xs in c["events"]:
+            for i, x in enumerate(xs):
+                L.append("pos %d 0 0 %s" % (i + 1, hx(x)))
+            L += ["step", "rdump"]
+        L += ["postrun", "echo END %d" % k]
+        scn += L
+    # histogram restraint: reference histogram from a file (x p(x) pairs, or p(x) only), histogram written at the end
+    hfiles = []
+    for j, two in enumerate([True, False]):
+        fn = os.path.join(runner.scratch, "refhist%d.dat" % j)
+        ref = [0.5, 1.0, 0.25, 0.25]
+        with open(fn, "w") as f:
+            f.write("# reference\n")
+            for g, p_ in enumerate(ref):
+                f.write(("%r %r\n" % (0.25 + 0.5 * g, p_)) if two else ("%r\n" % p_))
+        hfiles.append((fn, ref))
+        k = n + j
+        scn += ["echo CASE %d" % k, "natoms 2", "prefix th%d" % j, "new", "capture", "config EOF", "colvarsTrajFrequency 1"] + \
+               colvar_block(0, {"w": 1.0, "per": False}) + colvar_block(1, {"w": 1.0, "per": False}) + \
+               ["histogramRestraint {", "  name r", "  colvars v0 v1", "  lowerBoundary 0.0", "  upperBoundary 2.0", "  width 0.5", "  gaussianSigma 0.5",
+                "  refHistogramFile %s" % fn, "  writeHistogram on", "  outputEnergy on", "  forceConstant 2.0", "}", "EOF", "show atomf 0 cv 0 energy 0 bias 0"]
+        for xs in ([0.25, 1.5], [0.75, 1.0]):
+            scn += ["pos 1 0 0 %s" % hx(xs[0]), "pos 2 0 0 %s" % hx(xs[1]), "step", "rdump"]
+        scn += ["postrun", "echo END %d" % k]
+    rc2, iout, e2 = V.run_lines(runner.unit, scn, cwd=runner.scratch)
+    impl = parse_impl(iout)
+
+    def read_traj(fn):
+        rows, labels = {}, None
+        if not os.path.exists(fn):
+            return None, {}
+        for l in open(fn):
+            if l.startswith("#"):
+                labels = l[1:].split()
+            elif l.strip():
+                t = l.replace("(", " ").replace(")", " ").replace(",", " ").split()
+                rows[int(t[0])] = [float(x) for x in t[1:]]
+        return labels, rows
+
+    c14 = lambda a, b: abs(a - b) <= 2e-14 * max(abs(a), abs(b)) + 1e-300
+    for k, c in enumerate(cases):
+        cs = impl.get(k)
+        run.dist("traj:%s:%s" % (c["kind"], c["mode"]))
+        if cs is None or not cs["complete"] or any("err=ok" not in l for l in cs["config"]):
+            run.mismatch("traj", c, ((cs or {}).get("config", []) + (cs or {}).get("raw", []))[-3:], "complete run")
+            continue
+        labels, rows = read_traj(os.path.join(runner.scratch, "tj%d.colvars.traj" % k))
+        rp = {"kind": "traj", "case": c, "labels": labels}
+        nv = len(c["vars"])
+        want = ["step"] + ["v%d" % i for i in range(nv)] + ["E_r"] + (["x0_v%d" % i for i in range(nv)] if c["outc"] else []) + \
+               (["W_r"] if c["accw"] and c["mode"] in ("cc", "kc") else [])
+        if labels != want:
+            run.violation("traj:labels", "%s restraint (mode %s, outputCenters %s, work %s): columns %r, expected %r" % (c["kind"], c["mode"], c["outc"], c["accw"], labels, want), rp)
+            continue
+        for o in cs["steps"]:
+            row = rows.get(o["it"])
+            if row is None or len(row) != len(want) - 1:
+                run.violation("traj:row-missing", "no (complete) trajectory line for step %d: %r" % (o["it"], row), rp)
+                break
+            col = dict(zip(want[1:], row))
+            bad = not c14(col["E_r"], o["E"])
+            if c["outc"]:
+                bad = bad or not all(c14(col["x0_v%d" % i], o["C"][i]) for i in range(nv))
+            if "W_r" in col:
+                bad = bad or not c14(col["W_r"], o["W"])
+            if bad:
+                run.violation("traj:columns", "step %d: trajectory columns %r, members E %r centres %r W %r" % (o["it"], col, o["E"], o["C"], o["W"]), rp)
+                break
+        run.count("traj%d" % k, True)
+    for j, (fn, ref) in enumerate(hfiles):
+        k = n + j
+        cs = impl.get(k)
+        run.dist("histogramRestraint:refHistogramFile")
+        if cs is None or not cs["complete"] or any("err=ok" not in l for l in cs["config"]) or len(cs["steps"]) != 2:
+            run.mismatch("histogram-file", fn, ((cs or {}).get("config", []) + (cs or {}).get("raw", []))[-3:], "complete run")
+            continue
+        tot = sum(ref) * 0.5
+        refn = [x / tot for x in ref]
+        for xs, o in zip(([0.25, 1.5], [0.75, 1.0]), cs["steps"]):
+            nrm = 1.0 / (math.sqrt(2.0 * math.pi) * 0.5 * 2)
+            p_ = [nrm * sum(math.exp(-(0.25 + 0.5 * g - x) ** 2 / (2 * 0.25)) for x in xs) for g in range(4)]
+            E = 0.5 * 2.0 * 2 * sum((a - b) ** 2 for a, b in zip(p_, refn))
+            if not close(E, o["E"]):
+                run.violation("potential:histogram:energy", "refHistogramFile (%s columns), values %r: energy %r, closed form %r" % ("two" if j == 0 else "one", xs, o["E"], E), {"kind": "histfile", "file": open(fn).read()})
+        # written histogram: "x p(x)" per bin at the end of the run
+        hf = os.path.join(runner.scratch, "th%d.r.hist.dat" % j)
+        got = [[float(t) for t in l.split()] for l in open(hf) if l.strip() and not l.startswith("#")] if os.path.exists(hf) else []
+        if len(got) != 4 or not all(abs(g[1] - q) < 1e-12 for g, q in zip(got, p_)):
+            run.violation("histogram:written-histogram", "writeHistogram: file %r, histogram of the last step %r" % (got, p_), {"kind": "histfile"})
+        elif not all(abs(g[0] - (0.25 + 0.5 * i)) < 1e-12 for i, g in enumerate(got)):
+            run.violation("histogram:written-grid-points", "writeHistogram writes the grid points %r, the histogram is evaluated at the bin centres %r" % ([g[0] for g in got], [0.25 + 0.5 * i for i in range(4)]), {"kind": "histfile"})
+        run.count("histfile%d" % j, True)
+
+
 def tsf_part(run, runner):
     """timeStepFactor f > 1: the bias is updated every f steps.  Continuous schedules are evaluated at the updated steps
     (and are stale in between, by design); staged schedules test exact step numbers and miss them (recorded finding)."""
@@ -1632,6 +1748,7 @@ def check(run):
     manifold_part(run, r, runner, 60 if quick else 3000)
     kman_part(run, r, runner, 40 if quick else 1500)
     script_part(run, r, runner, 30 if quick else 600)
+    traj_part(run, r, runner, 30 if quick else 600)
     tsf_part(run, runner)
     ti_part(run, r, runner, 40 if quick else 1500)
     run.cov["correspondence"].update({"scenarios": len(cases), "regression_scenarios": len(wit)})
